@@ -97,8 +97,9 @@ def translate_c_from_projectq(projectq_str):
     GATE_PROJECTQ = get_projectq_gates()
     gate_mapping = {v: k for k, v in GATE_PROJECTQ.items()}
 
-    # Ignore allocate and deallocate instructions.
-    # Number of qubits is inferred by the abstract circuit, no (de)allocation will occur mid-circuit.
+    # Allocate and deallocate instructions are not translated to gates: no (de)allocation will occur mid-circuit.
+    # The allocated qubits give the width of the circuit, if wider than what is inferred from the gates.
+    n_allocated = max([int(index) + 1 for index in re.findall(r'Allocate \| Qureg\[(\d+)\]', projectq_str)], default=0)
     projectq_str = re.sub(r'(.*)llocate(.*)\n', '', projectq_str)
     projectq_gates = [instruction for instruction in projectq_str.split("\n") if instruction]
 
@@ -122,7 +123,7 @@ def translate_c_from_projectq(projectq_str):
             raise ValueError(f"Gate '{gate_name}' not supported with project2abs translation")
         abs_circ.add_gate(gate)
 
-    return abs_circ
+    return abs_circ if n_allocated <= abs_circ.width else Circuit(abs_circ._gates, n_qubits=n_allocated)
 
 
 def translate_op_to_projectq(qubit_operator):
